@@ -580,12 +580,12 @@ func (c *Ctx) isWalkedEntry(v *pw.Val, b BK) bool {
 	}
 	e := strip(a.Fields["E"])
 	okE := e != nil && e.Kind == pw.KCall && e.Ev.Role == "Std:time.Time.UnixNano" && acc(e.Ev.Recv, "ExpireAt")
-	if !okE && e != nil && e.Kind == pw.KField && e.Field != nil && e.Field.Name() == "E" && iterated(e.Src) {
+	if !okE && e != nil && e.Kind == pw.KField && e.Field != nil && fname(e.Field) == "E" && iterated(e.Src) {
 		okE = true
 	}
 	field := func(name, method string) bool {
 		f := strip(a.Fields[name])
-		if f != nil && f.Kind == pw.KField && f.Field != nil && f.Field.Name() == name && iterated(f.Src) {
+		if f != nil && f.Kind == pw.KField && f.Field != nil && fname(f.Field) == name && iterated(f.Src) {
 			return true
 		}
 		return acc(f, method)
